@@ -634,6 +634,10 @@ def replay_until(inputs, clause):
     txt = f"{UNTIL_TEXT}: lhs values {[NAMES[x] for x in Lt]}, rhs values {[NAMES[x] for x in Rt]}, _evaluate_at({i}) = {NAMES[v]}, reference {NAMES[s]}: {bad}"
     if "reject now" in bad and i == 0:
         txt += _public_premature_false()
+    if i > 0:
+        pv = _public_until([TRUE, FALSE, FALSE], [FALSE, TRUE, FALSE], 1)
+        if pv < PT:
+            txt += f"; public API: `next (a until b)` on a=TFF b=FTF evaluates to {NAMES[pv]} (the trace satisfies the formula: b holds at step 1)"
     if all(x in (TRUE, FALSE) for x in Lt + Rt):
         pv = _public_until(Lt, Rt, i)
         txt += f"; public API: `{'next ' * i}(a until b)` on a={''.join('T' if x == TRUE else 'F' for x in Lt)} b={''.join('T' if x == TRUE else 'F' for x in Rt)} evaluates to {NAMES[pv]}"
@@ -1064,8 +1068,8 @@ def formula_families():
     depth1 = [a] + d1a
     depth2 = [(u, x) for u in UN for x in d1a]
     depth2 += [(o, x, b) for o in BIN for x in d1a]
-    depth2 += [(o, b, x) for o in BIN for x in d1a]
-    depth2 += [(o, (u, a), (v, b)) for o in ("and", "implies") for u in ("next", "always") for v in ("eventually", "next")]
+    depth2 += [("until", b, x) for x in d1a] + [("implies", b, x) for x in d1a[:4]]
+    depth2 += [("and", ("always", a), ("eventually", b)), ("implies", ("always", a), ("next", b)), ("or", ("next", a), ("eventually", b))]
     seen, uniq = set(), []
     for f in depth1 + depth2:
         if f not in seen:
@@ -1197,7 +1201,7 @@ def register_end_to_end(reg, B4T):
         )
         reg.add(holder["c"], key=key)
 
-    CH = 8
+    CH = 6
     for k in range(0, len(plain), CH):
         make(f"until only at position 0, formulas {k}-{min(k + CH, len(plain)) - 1}", plain[k : k + CH], "depth <= 2 over a, b; `until` never below next/always/eventually/until")
     for k in range(0, len(nested), CH):
@@ -1206,7 +1210,11 @@ def register_end_to_end(reg, B4T):
 
     # ---- the reference semantics sem4 used by the per-class contracts, validated against `sat` on the same bounded space
     # (pure specification lemmas: no code of the dependency is involved; hung on Monitor.evaluate of a one-atom monitor)
-    allf = plain + nested + premature
+    a_, b_ = ("atom", "a"), ("atom", "b")
+    d1 = [(u, a_) for u in UN] + [(o, a_, b_) for o in BIN]
+    d1b = [(u, b_) for u in UN] + [(o, b_, a_) for o in BIN]
+    wide = [(o, x, y) for o in BIN for x in d1 for y in d1b[:4]] + [(o, b_, x) for o in BIN for x in d1]
+    allf = plain + nested + premature + [f for f in wide if f not in plain and f not in nested]
 
     def make_lemma(k0, k1):
         key = f"{tgt}[lemma sem4 vs sat, formulas {k0}-{k1 - 1}]"
